@@ -1025,3 +1025,26 @@ pub fn serve() -> ! {
     }
     std::process::exit(0);
 }
+
+/// Thin wrappers that expose crate-private pure functions to out-of-tree harnesses. No behaviour
+/// of their own.
+pub mod api {
+    use crate::alignment::Alignment;
+
+    /// `Alignment::new`: the exponent if accepted.
+    pub fn alignment_new(raw: u64) -> Option<u8> {
+        Alignment::new(raw).ok().map(|a| a.exponent)
+    }
+
+    pub fn align_up(exponent: u8, value: u64) -> u64 {
+        Alignment { exponent }.align_up(value)
+    }
+
+    pub fn align_down(exponent: u8, value: u64) -> u64 {
+        Alignment { exponent }.align_down(value)
+    }
+
+    pub fn align_modulo(exponent: u8, ref_offset: u64, offset: u64) -> u64 {
+        Alignment { exponent }.align_modulo(ref_offset, offset)
+    }
+}
